@@ -7,74 +7,19 @@ the lemmas are in Lemmas/FixLemmas.lean, the model in Model/Fix.lean.
 namespace NasdaqModel.Props.C13
 open NasdaqModel Py Fix
 
-/-- the dictionary of a message class: all tags of header, body and trailer (nested groups included) pairwise distinct -/
-def wfDef (d : MsgDef) : Bool := decide (deepTagsL (d.hdr ++ d.body ++ d.trl)).Nodup
-
-/-- a message built from valid values: every segment holds values its entries accept (text ASCII without SOH,
-    group instances with distinct known keys that contain the group's first entry), at least one field is set -/
-def wfMsg (d : MsgDef) (m : Msg) : Bool :=
-  wfSeg d.hdr m.hdr && wfSeg d.body m.body && wfSeg d.trl m.trl &&
-  !(m.hdr.isEmpty && m.body.isEmpty && m.trl.isEmpty)
-
-/-- the decoded form of `m`: top-level segments in wire (= assignment) order, group instances in dictionary order -/
-def canonMsg (d : MsgDef) (m : Msg) : Msg :=
-  { hdr := canonSeg d.hdr m.hdr, body := canonSeg d.body m.body, trl := canonSeg d.trl m.trl }
-
-private theorem wfDef_parts {d : MsgDef} (h : wfDef d = true) :
-    (deepTagsL d.hdr).Nodup ∧ (deepTagsL d.body).Nodup ∧ (deepTagsL d.trl).Nodup ∧
-    (∀ t ∈ deepTagsL d.body, t ∉ deepTagsL d.hdr) ∧ (∀ t ∈ deepTagsL d.trl, t ∉ deepTagsL d.hdr) ∧
-    (∀ t ∈ deepTagsL d.trl, t ∉ deepTagsL d.body) := by
-  simp only [wfDef, decide_eq_true_eq, deepTagsL_append] at h
-  rw [List.nodup_append] at h
-  obtain ⟨h1, h2, h3⟩ := h
-  rw [List.nodup_append] at h1
-  obtain ⟨h11, h12, h13⟩ := h1
-  refine ⟨h11, h12, h2, ?_, ?_, ?_⟩
-  · intro t ht hh; exact h13 t hh t ht rfl
-  · intro t ht hh; exact h3 t (by simp [hh]) t ht rfl
-  · intro t ht hh; exact h3 t (by simp [hh]) t ht rfl
-
-/-- the bytes of a well-formed message are its fields, each followed by SOH: header, body, trailer -/
-private theorem encMsg_wire {d : MsgDef} {m : Msg} {bs : Bytes} (hd : wfDef d = true) (hm : wfMsg d m = true)
-    (henc : encMsg d m = .ok bs) :
-    ∃ fh fb ft, encSegFields d.hdr m.hdr = .ok fh ∧ encSegFields d.body m.body = .ok fb ∧
-      encSegFields d.trl m.trl = .ok ft ∧ bs = termAll fh ++ termAll fb ++ termAll ft := by
-  obtain ⟨nh, nb, nt, _, _, _⟩ := wfDef_parts hd
-  simp only [wfMsg, Bool.and_eq_true, Bool.not_eq_true', Bool.and_eq_false_iff] at hm
-  obtain ⟨⟨⟨wh, wb⟩, wt⟩, hne⟩ := hm
-  simp only [encMsg, encSeg] at henc
-  obtain ⟨h, hh, henc⟩ := bind_ok henc
-  obtain ⟨fh, hfh, hh⟩ := bind_ok hh
-  obtain ⟨b, hb, henc⟩ := bind_ok henc
-  obtain ⟨fb, hfb, hb⟩ := bind_ok hb
-  obtain ⟨t, ht, henc⟩ := bind_ok henc
-  obtain ⟨ft, hft, ht⟩ := bind_ok ht
-  simp only [pure_eq_ok] at hh hb ht henc
-  injection hh with hh; injection hb with hb; injection ht with ht; injection henc with henc
-  subst hh; subst hb; subst ht
-  obtain ⟨gh, eh⟩ := encSegFields_good d.hdr nh m.hdr fh wh hfh
-  obtain ⟨gb, eb⟩ := encSegFields_good d.body nb m.body fb wb hfb
-  obtain ⟨gt, et⟩ := encSegFields_good d.trl nt m.trl ft wt hft
-  refine ⟨fh, fb, ft, hfh, hfb, hft, ?_⟩
-  rw [← henc, assemble _ _ _ (joinSOH_nil_or_good fh gh) (joinSOH_nil_or_good fb gb) (joinSOH_nil_or_good ft gt),
-    termSeg_joinSOH fh gh, termSeg_joinSOH fb gb, termSeg_joinSOH ft gt]
-  intro ⟨a1, a2, a3⟩
-  have e1 : m.hdr = [] := eh.mp ((joinSOH_eq_nil_iff fh (fun x hx => (gh x hx).1)).mp a1)
-  have e2 : m.body = [] := eb.mp ((joinSOH_eq_nil_iff fb (fun x hx => (gb x hx).1)).mp a2)
-  have e3 : m.trl = [] := et.mp ((joinSOH_eq_nil_iff ft (fun x hx => (gt x hx).1)).mp a3)
-  simp [e1, e2, e3] at hne
-
-/-- what follows a segment on the wire begins with a tag of a later segment -/
-private theorem starts_of_fields {es : List Entry} {s : Seg} {fbs : List Bytes} {P : Nat → Prop} {rest : Bytes}
-    (hwf : wfSeg es s = true) (henc : encSegFields es s = .ok fbs) (hP : ∀ t ∈ deepTagsL es, P t)
-    (hrest : Starts P rest) : Starts P (termAll fbs ++ rest) := by
-  simp only [wfSeg, Bool.and_eq_true, decide_eq_true_eq] at hwf
-  obtain ⟨fs, h1, h2, _, _⟩ := encSegFields_items es s fbs hwf.1 henc
-  have hw : termAll fbs = wireItems fs := by simp [wireItems, h1]
-  rw [hw]
-  apply starts_wireItems fs rest (fun x hx => (h2 x hx).2.2) _ hrest
-  intro x hx
-  exact hP _ (deepTags_sub_deepTagsL (h2 x hx).1 _ (tag_mem_deepTags _))
+/-
+The hypotheses (all decidable, defined in Lemmas/FixLemmas.lean):
+  wfDef d    — all tags of header, body and trailer of the message class, nested groups included, pairwise distinct
+               (slightly stronger than "segments disjoint": a group instance ends at the first tag it does not know);
+  wfMsg d m  — every segment holds values its entries accept: right Python type, text ASCII without SOH, group instances
+               with distinct keys known to the group and containing the group's first entry; at least one field set;
+  canonMsg d m — `m` with every group instance re-ordered to dictionary order (top-level segments keep their order):
+               what decoding returns, with the same field values as `m`;
+  getMsgType bs = .ok d.type — the first `35=` in the bytes is the MsgType field (`C13_msgtype_first`: true whenever
+               MsgType is the first header field assigned);
+  lookupReg reg d.type = some d — the class is the one registered for its type.
+Non-vacuity examples are at the end of the file.
+-/
 
 /-- **Round trip.** Decoding the bytes of a well-formed message through the base class yields the class registered for
     its MsgType, consumes every byte and returns the message in canonical form (same field values; group instances in
@@ -118,6 +63,16 @@ theorem C13_reencode (d : MsgDef) (m : Msg) (hd : wfDef d = true) : encMsg d (ca
     "canonicalising changes nothing" (`canonMsg d m = m`). -/
 theorem C13_eq_original_partial (d : MsgDef) (m : Msg) (hord : canonMsg d m = m) : pyEq (canonMsg d m) m = true := by
   rw [hord]; exact pyEq_refl m
+
+/-- **Equality after the repair.**  With group instances compared as plain dicts (fixes/C13-group-eq-order.md) the
+    decoded message compares equal to the original for *every* well-formed message, whatever the assignment order. -/
+theorem C13_eq_repaired (d : MsgDef) (m : Msg) (hd : wfDef d = true) (hm : wfMsg d m = true) :
+    pyEqDict (canonMsg d m) m = true := by
+  obtain ⟨nh, nb, nt, _, _, _⟩ := wfDef_parts hd
+  simp only [wfMsg, wfSeg, Bool.and_eq_true] at hm
+  obtain ⟨⟨⟨wh, wb⟩, wt⟩, _⟩ := hm
+  simp only [pyEqDict, canonMsg, segEqTop_canon _ nh _ wh.1, segEqTop_canon _ nb _ wb.1, segEqTop_canon _ nt _ wt.1,
+    Bool.and_self]
 
 /-- **Class.** Whatever `decodeMsg` returns for the bytes of a well-formed message is the class registered for its type. -/
 theorem C13_class (reg : List MsgDef) (d : MsgDef) (m : Msg) (bs : Bytes)
